@@ -103,6 +103,11 @@ def committor_case(draw, max_n=8):
         case["neg_ids"] = True
         case["src_form"] = "list" if case["src_form"] == "scalar" else case["src_form"]
         case["snk_form"] = "list" if case["snk_form"] == "scalar" else case["snk_form"]
+    elif draw(st.integers(0, 5)) == 0:
+        # a state SET written with one member listed twice (ids collected from two overlapping criteria): the same set
+        case["listed_twice"] = draw(st.sampled_from(["sources", "sinks", "both"]))
+        case["src_form"] = "list" if case["src_form"] == "scalar" else case["src_form"]
+        case["snk_form"] = "list" if case["snk_form"] == "scalar" else case["snk_form"]
     return case
 
 
@@ -192,14 +197,18 @@ def run_committor(case):
     X = R.to_container(T, case["container"])
     src, snk = case["sources"], case["sinks"]
     neg = bool(case.get("neg_ids"))
-    q = _quiet(tpt.committors, X, R.set_arg(_ids(src, n, neg), case["src_form"]), R.set_arg(_ids(snk[::-1], n, neg)[::-1], case["snk_form"]))
+    twice = case.get("listed_twice")
+    src_l = list(src) + ([src[0]] if twice in ("sources", "both") else [])
+    snk_l = list(snk) + ([snk[-1]] if twice in ("sinks", "both") else [])
+    q = _quiet(tpt.committors, X, R.set_arg(_ids(src_l, n, neg), case["src_form"]),
+               R.set_arg(_ids(snk_l[::-1], n, neg)[::-1], case["snk_form"]))
     q = _vec(q, n, "committors")
     free = check_committor(T, q, src, snk)
     nt = n >= 4 and (len(src) >= 2 or len(snk) >= 2) and len(free) >= 1
     return Info(nt, _classes(case, ["n_sources=%s" % min(len(src), 3), "n_sinks=%s" % min(len(snk), 3),
                                     "intermediates=%s" % min(len(free), 2),
                                     "src_form=" + case["src_form"], "snk_form=" + case["snk_form"],
-                                    "negative_ids=%s" % neg]))
+                                    "negative_ids=%s" % neg, "member_listed_twice=%s" % (twice or "no")]))
 
 
 # --------------------------------------------------------------------------
